@@ -1,6 +1,7 @@
 package props
 
 import (
+	"os"
 	"fmt"
 	"go/ast"
 	"go/types"
@@ -201,6 +202,34 @@ func runPairs(p *core.Program, x *wire.Extractor, r *core.Report, pairs []codecP
 				r.Undec(rule, construct, pos, where)
 			} else {
 				r.Viol(rule, construct, pos, where)
+			}
+		}
+		// computed values in field positions: the reader restores field F from a position where the
+		// writer passes the result of a function that is not a conversion or a known transparent wrapper
+		{
+			seenO := map[string]bool{}
+			for _, o := range res.Opaque {
+				k := cp.Name + " :: field " + o.Field + " is written through `" + o.Arg + "`"
+				if seenO[k] {
+					continue
+				}
+				seenO[k] = true
+				rule := rules.Pairs
+				if rules.Fields != "" {
+					rule = rules.Fields
+				}
+				bad[rule] = true
+				r.Viol(rule, k, p.Pos(o.WPos), "the value on the wire is computed from the field by something other than a conversion: the analysis cannot show that what is written is the field's value (a clamping/normalising helper changes what the peer decodes)")
+			}
+		}
+		if os.Getenv("WIRE_OPAQUE") != "" {
+			seenO := map[string]bool{}
+			for _, o := range res.Opaque {
+				k := fmt.Sprintf("%s field=%s arg=%s", cp.Name, o.Field, o.Arg)
+				if !seenO[k] {
+					seenO[k] = true
+					fmt.Fprintln(os.Stderr, "OPAQUE", k)
+				}
 			}
 		}
 		for _, n := range res.Notes {
